@@ -1853,7 +1853,25 @@ mod srvlevel {
     }
 
     /// child process: a server with OS signals enabled; prints its port, exits when the server future resolves
-    pub fn sigchild(timeout: Option<u64>, plain_tokio: bool, abstract_uds: bool) {
+    pub fn sigchild(timeout: Option<u64>, plain_tokio: bool, abstract_uds: bool, emfile: bool) {
+        if emfile {
+            // commands on stdin: `lower` takes every free descriptor away from this process (soft RLIMIT_NOFILE = 0: the next
+            // accept fails with a real EMFILE), `restore` gives them back; each is acknowledged on stdout
+            std::thread::spawn(|| {
+                use std::io::BufRead;
+                let mut old: libc::rlimit = unsafe { std::mem::zeroed() };
+                unsafe { libc::getrlimit(libc::RLIMIT_NOFILE, &mut old) };
+                for line in std::io::stdin().lock().lines().map_while(Result::ok) {
+                    let r = match line.trim() {
+                        "lower" => unsafe { libc::setrlimit(libc::RLIMIT_NOFILE, &libc::rlimit { rlim_cur: 0, rlim_max: old.rlim_max }) },
+                        "restore" => unsafe { libc::setrlimit(libc::RLIMIT_NOFILE, &old) },
+                        _ => -1,
+                    };
+                    println!("{}", if r == 0 { "done" } else { "failed" });
+                    let _ = std::io::stdout().flush();
+                }
+            });
+        }
         // SIGUSR1: a handler that does nothing (no SA_RESTART): whichever thread takes it has its system call interrupted
         extern "C" fn noop(_: libc::c_int) {}
         unsafe {
@@ -1923,12 +1941,29 @@ mod srvlevel {
             Some("1") => true,
             _ => return (line.to_string(), "bad-op".into(), vec![]),
         };
+        // `emfile=1`: while the server runs, its process loses every free descriptor for a moment: a client that connects then
+        // makes accept fail with a real EMFILE (the listener backs off for 500 ms); the descriptors come back 100 ms later;
+        // `storm=<ms>x<n>`: from then on SIGUSR1 (no-op handler) is delivered to the accept thread every <ms> ms, n times.
+        // The connection that hit the shortage is served when the back-off expires — interrupted polls do not postpone it
+        let emfile = match kv(&ws, "emfile") {
+            None => false,
+            Some("1") => true,
+            _ => return (line.to_string(), "bad-op".into(), vec![]),
+        };
+        let storm: Option<(u64, u64)> = match kv(&ws, "storm") {
+            None => None,
+            Some(t) => match t.split_once('x').and_then(|(a, b)| Some((super::num(a)? as u64, super::num(b)? as u64))) {
+                Some((ms, n)) if emfile && (10..=1000).contains(&ms) && (1..=100).contains(&n) => Some((ms, n)),
+                _ => return (line.to_string(), "bad-op".into(), vec![]),
+            },
+        };
         let exe = match std::env::current_exe() {
             Ok(e) => e,
             Err(e) => return (line.to_string(), format!("setup-error {e}"), vec![]),
         };
         let mut child = match std::process::Command::new(exe)
-            .args(["sigchild", &timeout.map_or("default".to_string(), |t| t.to_string()), if plain_tokio { "tokio" } else { "system" }, if abstract_uds { "udsa" } else { "tcp" }])
+            .args(["sigchild", &timeout.map_or("default".to_string(), |t| t.to_string()), if plain_tokio { "tokio" } else { "system" }, if abstract_uds { "udsa" } else { "tcp" }, if emfile { "emfile" } else { "-" }])
+            .stdin(if emfile { std::process::Stdio::piped() } else { std::process::Stdio::null() })
             .stdout(std::process::Stdio::piped())
             .stderr(std::process::Stdio::null())
             .spawn()
@@ -2018,6 +2053,77 @@ mod srvlevel {
                 }
             }
         }
+        let mut served_obs = String::new();
+        if emfile {
+            let mut stdin = child.stdin.take();
+            let mut cmd = |c: &str, child: &mut std::process::Child| -> bool {
+                let Some(si) = stdin.as_mut() else { return false };
+                if si.write_all(format!("{c}\n").as_bytes()).is_err() || si.flush().is_err() {
+                    return false;
+                }
+                let out = child.stdout.as_mut().unwrap();
+                let (mut l, mut b) = (String::new(), [0u8; 1]);
+                while let Ok(1) = out.read(&mut b) {
+                    if b[0] == b'\n' {
+                        break;
+                    }
+                    l.push(b[0] as char);
+                }
+                l.trim() == "done"
+            };
+            let tid = acceptor_tid();
+            let mut served_ms: Option<u128> = None;
+            let mut ran = false;
+            if cmd("lower", &mut child) {
+                // the client's connect completes in the kernel (backlog); the server's accept fails: EMFILE, back-off
+                let c2 = mk_conn();
+                std::thread::sleep(Duration::from_millis(100));
+                let restored = cmd("restore", &mut child);
+                let t_restored = Instant::now();
+                if let (Some(mut c2), true) = (c2, restored) {
+                    ran = true;
+                    let storm_thread = storm.and_then(|(ms, n)| {
+                        tid.map(|tid| {
+                            std::thread::spawn(move || {
+                                for _ in 0..n {
+                                    unsafe { libc::syscall(libc::SYS_tgkill, child_pid as libc::c_long, tid as libc::c_long, libc::SIGUSR1 as libc::c_long) };
+                                    std::thread::sleep(Duration::from_millis(ms));
+                                }
+                            })
+                        })
+                    });
+                    // (read time-out of the connection: 1 s per attempt)
+                    let _ = c2.write_all(&[5]);
+                    let mut b2 = [0u8; 1];
+                    while t_restored.elapsed() < Duration::from_millis(3500) {
+                        if c2.read_exact(&mut b2).is_ok() && b2[0] == 5 {
+                            served_ms = Some(t_restored.elapsed().as_millis());
+                            break;
+                        }
+                    }
+                    if let Some(t) = storm_thread {
+                        let _ = t.join();
+                    }
+                }
+            } else {
+                let _ = cmd("restore", &mut child);
+            }
+            if ran {
+                let ok = matches!(served_ms, Some(ms) if ms <= 1500);
+                if !ok {
+                    for tag in ["C05", "C03"] {
+                        pre_fails.push(format!(
+                            "[{tag}] accept failed for want of descriptors (EMFILE), the listener backed off; the descriptors were back 100 ms later, but the waiting connection was {} after that{}: the back-off ends 500 ms after the error — whatever wakes the accept thread's poll in between, an interrupted poll included",
+                            served_ms.map_or("not served within 3.5 s".to_string(), |ms| format!("served only {ms} ms")),
+                            storm.map_or(String::new(), |(ms, n)| format!(" (SIGUSR1, no-op handler, delivered to the accept thread every {ms} ms, {n} times)"))
+                        ));
+                    }
+                }
+                served_obs = format!(" served={}", ok as u8);
+            } else {
+                served_obs = " served=skipped".into();
+            }
+        }
         let t0 = Instant::now();
         let direct = if to_acceptor { acceptor_tid() } else { None };
         match direct {
@@ -2095,7 +2201,7 @@ mod srvlevel {
                 "exit={} early={}{}",
                 if exit_ms.is_none() { "never".to_string() } else if clean { "ok".to_string() } else { exit_code.map_or("signal".to_string(), |c| format!("code{c}")) },
                 early as u8,
-                if usr1 { format!(" serves={}", serves.map_or("?".to_string(), |s| (s as u8).to_string())) } else { String::new() }
+                if usr1 { format!(" serves={}", serves.map_or("?".to_string(), |s| (s as u8).to_string())) } else { String::new() } + &served_obs
             ),
             fails,
         )
@@ -3771,6 +3877,22 @@ mod gen {
         if prop == "C06" {
             writeln!(w, "k-shape").unwrap();
         }
+        if prop == "C05" {
+            // only what C05 needs from this engine (real signals cannot be delivered to the stepped accept loop): a back-off
+            // after a real EMFILE, with and without handled signals interrupting the accept thread's poll while it lasts
+            writeln!(w, "case srvlevel n=1 timeout=0").unwrap();
+            writeln!(w, "sig b0 sig=term timeout=1 hold=n emfile=1").unwrap();
+            writeln!(w, "sig b1 sig=term timeout=1 hold=n emfile=1 storm=100x30").unwrap();
+            writeln!(w, "sig b2 sig=quit timeout=1 hold=n emfile=1 storm=40x60 rt=tokio").unwrap();
+            if thorough {
+                writeln!(w, "sig b3 sig=term timeout=1 hold=n emfile=1 storm=250x12").unwrap();
+                writeln!(w, "sig b4 sig=int timeout=1 hold=300 emfile=1 storm=10x100 lst=udsa").unwrap();
+            }
+            writeln!(w, "sig bad sig=term timeout=1 hold=n storm=100x30").unwrap();
+            writeln!(w, "sig bad2 sig=term timeout=1 hold=n emfile=1 storm=100").unwrap();
+            w.flush().unwrap();
+            return;
+        }
         if prop == "C08" {
             // only what C08 needs from this engine: a worker that dies (its service panics) with a slow teardown of its
             // service, connections made inside the teardown window, the replacement rejoining — on the real Server
@@ -4077,6 +4199,7 @@ fn main() {
             },
             argv.get(3).map(|s| s.as_str()) == Some("tokio"),
             argv.get(4).map(|s| s.as_str()) == Some("udsa"),
+            argv.get(5).map(|s| s.as_str()) == Some("emfile"),
         );
         return;
     }
